@@ -102,6 +102,62 @@ MEDIA = ["screen", "print and (min-width: 100px)", "(min-width: 1px) and (max-wi
          "screen, print", "(min-resolution: 2dppx)", "(width >= 600px)", "#{'screen'}"]
 
 
+def supports_cond(rng, depth=0):
+    """a random @supports condition: declarations, selector()/font-tech()-style functions, negation, conjunction and
+    disjunction chains, nested groups (each nested condition in its own parentheses, as the grammar requires)"""
+    def in_parens(d):
+        k = rng.below(10)
+        if d >= 3 or k < 5:
+            return "(%s: %s)" % (rng.choice(["display", "a", "--v", "gap"]), rng.choice(["grid", "1px", "b c", "calc(1px + 1%)", "#{1 + 1}px"]))
+        if k == 5:
+            return rng.choice(["selector(a > b)", "selector(:focus-visible)", "font-tech(color-COLRv1)"])
+        return "(%s)" % cond(d + 1)
+
+    def cond(d):
+        k = rng.below(10)
+        if k < 3:
+            return "not " + in_parens(d)
+        if k < 6:
+            return in_parens(d)
+        op = " and " if k < 8 else " or "
+        return op.join(in_parens(d) for _ in range(rng.range(2, 3)))
+    return cond(depth)
+
+
+def media_query_list(rng):
+    """a random media query list over the Media Queries 4 grammar: optional not/only + type [+ and-chain of conditions],
+    or a bare condition (feature, feature: value, range, negation, and-chain, or-chain, nested group)"""
+    FEATS = ["(hover)", "(color)", "(min-width: 100px)", "(max-width: 20em)", "(width >= 600px)", "(400px <= width <= 700px)",
+             "(min-resolution: 2dppx)", "(orientation: landscape)", "(min-width: #{10 * 10}px)", "(aspect-ratio: 16/9)"]
+
+    def in_parens(d):
+        k = rng.below(10)
+        if d >= 2 or k < 7:
+            return rng.choice(FEATS)
+        return "(%s)" % cond(d + 1)
+
+    def cond(d):
+        k = rng.below(10)
+        if k < 2:
+            return "not " + in_parens(d)
+        if k < 6:
+            return in_parens(d)
+        op = " and " if k < 8 else " or "
+        return op.join(in_parens(d) for _ in range(rng.range(2, 3)))
+
+    def query():
+        k = rng.below(10)
+        if k < 5:
+            q = rng.choice(["", "", "not ", "only "]) + rng.choice(["screen", "print", "all", "#{'screen'}"])
+            if rng.chance(0.2):
+                return q + " and not " + in_parens(1)     # (a negation is only allowed as the sole condition after a type)
+            for _ in range(rng.below(3)):
+                q += " and " + in_parens(1)
+            return q
+        return cond(0)
+    return ", ".join(query() for _ in range(rng.choice([1, 1, 1, 2, 3])))
+
+
 def gen_clean_program(rng, depth=0, in_media=False, in_ph=False):
     """well-behaved Sass made of CSS-representable values, exercising every serializer path"""
     out = []
@@ -134,9 +190,9 @@ def gen_clean_program(rng, depth=0, in_media=False, in_ph=False):
             out.append("%s { %s }" % (sel, " ".join(body)))
         elif k == 7 and not in_media:
             # (nested @media merging is C17's subject: re-merging on every pass is legitimate, so no @media in @media here)
-            out.append("@media %s { %s }" % (rng.choice(MEDIA), gen_clean_program(rng, depth + 1, True, in_ph)))
+            out.append("@media %s { %s }" % (rng.choice(MEDIA) if rng.chance(0.4) else media_query_list(rng), gen_clean_program(rng, depth + 1, True, in_ph)))
         elif k == 8:
-            out.append("@supports (%s: %s) { %s }" % (rng.choice(["display", "a"]), rng.choice(["grid", "1px", "b"]), gen_clean_program(rng, depth + 1, in_media, in_ph)))
+            out.append("@supports %s { %s }" % (supports_cond(rng), gen_clean_program(rng, depth + 1, in_media, in_ph)))
         elif k == 9 and depth == 0:
             out.append("@keyframes k%d { from { a: %s; } 50%% { a: %s; } to { a: b; } }" % (rng.below(9), rng.choice(VALS), rng.choice(VALS)))
         elif k == 10 and depth == 0:
